@@ -73,6 +73,9 @@ func ruleC06(c *Check) {
 	c.priceNonEmpty("C06.10", c.handFuncs("keeper"))
 	// an accepted change of the committed response time (or of the price) is persisted: eligibility reads the stored binding
 	c.depositPairing("C06.11")
+	// "response time ≤ timeout" compares an unsigned commitment with the timeout converted to unsigned: the timeout of every
+	// accepted request is positive (a negative one would admit every provider)
+	c.requestValidation("C06.12")
 	c.issueLoopOverList("C06.3")
 	// "within the consumer's fee cap": the cap in force is the one the consumer last set
 	c.updatesTakeEffect("C06.9")
